@@ -7,7 +7,7 @@ import (
 	"golang.org/x/tools/go/ssa"
 )
 
-var reSimpleMod = regexp.MustCompile(`^(\w+)\.(\w+)$`)
+var reSimpleMod = regexp.MustCompile(`^(?:allof\()?(\w+)\.(\w+)\)?$`)
 
 // staticModKeys translates the modifies clauses of a callee contract into heap keys when every
 // target has the simple form <pointer parameter>.<field>: the field of all objects of that
